@@ -6,6 +6,8 @@ Copyright 2020 William W. Kimball, Jr. MBA MSIS
 import re
 from typing import Any, List
 
+from ruamel.yaml.scalarbool import ScalarBoolean
+
 from yamlpath.enums import (
     AnchorMatches,
     PathSearchMethods,
@@ -38,6 +40,10 @@ class Searches:
         Returns:  (bool) True = comparision passes; False = comparison fails.
         """
         typed_haystack = Nodes.typed_value(haystack)
+        if isinstance(typed_haystack, ScalarBoolean):
+            # An Anchored, or re-written, Boolean is a ruamel.yaml wrapper
+            # around the number 1 or 0; it is a Boolean all the same.
+            typed_haystack = bool(typed_haystack)
         typed_needle = Nodes.typed_value(needle)
         needle_type = type(typed_needle)
         matches: bool = False
